@@ -310,6 +310,7 @@ type tstore struct {
 	id, name, canon string
 	modelID         string
 	modelIDs        []string // every model id the store ever had
+	deleted         bool
 	root            bool
 	hasModel        bool
 }
@@ -388,6 +389,16 @@ func genGrants(r *rec.Rand, w *world, clientID string, profile int) []grantTuple
 		}
 	case 3: // system admin
 		add("system:fga", "admin")
+	case 6: // may list; may get every target store (and a store that never existed): after
+		// deletions the accessible id list is as long as, or longer than, the live store list
+		add("system:fga", "can_call_list_stores")
+		for _, s := range targets[1:] {
+			add("store:"+s.id, "can_call_get_store")
+		}
+		add("store:"+w.ghost, "can_call_get_store")
+		if r.Chance(1, 3) {
+			add("store:"+targets[1].id, "can_call_delete_store")
+		}
 	case 4: // module-level writer
 		for _, s := range targets[1:] {
 			for _, m := range moduleNames[:3] {
@@ -592,6 +603,9 @@ func (w *world) doCall(id identity, h, method string, s *tstore) callRec {
 	w.tr.reset()
 	err := w.callHandler(w.ctxFor(id), h, s)
 	cl, code := classOf(err)
+	if h == "DeleteStore" && err == nil {
+		s.deleted = true
+	}
 	hd := 0
 	if !s.root {
 		hd = w.tr.modelHeaders(s)
@@ -750,8 +764,11 @@ func runScenario(wr *rec.Writer, scenSeed uint64, backend string) {
 		{Label: "stranger", ClientID: "stranger"},
 	}
 	nClients := r.Range(4, 6)
-	profiles := []int{1, 2, 3, 4, 5, 5, 5, 5}
+	profiles := []int{1, 2, 3, 4, 5, 5, 5, 6}
 	rec.Shuffle(r, profiles)
+	if profiles[0] != 6 && r.Chance(2, 3) {
+		profiles[1] = 6
+	}
 	var grants []grantTuple
 	for i := 0; i < nClients; i++ {
 		cid := fmt.Sprintf("c%d", i)
@@ -800,6 +817,8 @@ func runScenario(wr *rec.Writer, scenSeed uint64, backend string) {
 		create   int
 		deletes  []callRec
 		storesV  []rec.V
+		lateV    []rec.V // ListStores after the deletions / creations
+		lateG    []rec.V // grants on the stores created after the grant tables were taken
 	}
 	var all []*perID
 
@@ -881,14 +900,99 @@ func runScenario(wr *rec.Writer, scenSeed uint64, backend string) {
 		}
 	}
 	// phase 3: CreateStore, then DeleteStore (stores disappear, so this comes last)
+	orig := append([]*tstore{}, w.stores...)
 	for pi, p := range all {
 		w.tr.reset()
-		_, err := srv.CreateStore(w.ctxFor(p.id), &openfgav1.CreateStoreRequest{Name: fmt.Sprintf("made-by-%d", pi)})
+		resp, err := srv.CreateStore(w.ctxFor(p.id), &openfgav1.CreateStoreRequest{Name: fmt.Sprintf("made-by-%d", pi)})
 		p.create, _ = classOf(err)
+		if err == nil {
+			w.stores = append(w.stores, &tstore{id: resp.GetId(), name: resp.GetName(), canon: fmt.Sprintf("new%d", pi)})
+		}
 	}
 	for _, p := range all {
-		for _, s := range w.stores[1:] {
+		for _, s := range orig[1:] {
 			p.deletes = append(p.deletes, w.doCall(p.id, "DeleteStore", "DeleteStore", s))
+		}
+	}
+	// phase 4: housekeeping by the operator (skip-authz context): more stores are deleted -- the
+	// grant tuples on them stay in the control store, so the authorizer keeps listing their ids --
+	// and new stores without any grant appear; then ListStores again as every identity
+	mode := r.Intn(3)
+	wr.Stat(fmt.Sprintf("housekeeping_mode_%d", mode), 1)
+	var liveTargets []*tstore
+	for _, s := range w.stores[1:] {
+		if !s.deleted {
+			liveTargets = append(liveTargets, s)
+		}
+	}
+	rec.Shuffle(r, liveTargets)
+	keep := len(liveTargets)
+	switch mode {
+	case 1:
+		keep = (len(liveTargets) + 1) / 2
+	case 2:
+		keep = r.Intn(2)
+	}
+	for i, s := range liveTargets {
+		if i >= keep {
+			_, err := srv.DeleteStore(skip, &openfgav1.DeleteStoreRequest{StoreId: s.id})
+			must(err, "housekeeping delete")
+			s.deleted = true
+		}
+	}
+	for i, k := 0, r.Intn(3); i < k; i++ {
+		resp, err := srv.CreateStore(skip, &openfgav1.CreateStoreRequest{Name: fmt.Sprintf("late-%d", i)})
+		must(err, "housekeeping create")
+		w.stores = append(w.stores, &tstore{id: resp.GetId(), name: resp.GetName(), canon: fmt.Sprintf("late%d", i)})
+	}
+	// the live store list, from the datastore itself
+	var liveV []rec.V
+	nLive := 0
+	{
+		token := ""
+		for {
+			resp, err := srv.ListStores(skip, &openfgav1.ListStoresRequest{ContinuationToken: token})
+			must(err, "list live stores")
+			for _, st := range resp.GetStores() {
+				c := w.canon(st.GetId())
+				if strings.HasPrefix(c, "?") {
+					must(fmt.Errorf("store %s (%s) is unknown to the driver", st.GetId(), st.GetName()), "live stores")
+				}
+				liveV = append(liveV, rec.L(rec.S(c), rec.S(st.GetName())))
+				nLive++
+			}
+			token = resp.GetContinuationToken()
+			if token == "" {
+				break
+			}
+		}
+	}
+	for _, p := range all {
+		if !p.id.NoClaims {
+			for _, s := range w.stores[len(orig):] {
+				res := w.grant(p.id.ClientID, "can_call_get_store", "store:"+s.id, []*openfgav1.TupleKey{sysTuple(s.id)})
+				p.lateG = append(p.lateG, rec.L(rec.S("can_call_get_store"), rec.I(1), rec.S(s.canon), rec.S(""), rec.I(res)))
+			}
+		}
+		for _, variant := range []struct {
+			name string
+			page int
+		}{{"", 0}, {"", r.Range(1, 3)}, {"alpha", 0}} {
+			cl, got, idsSeen := w.listStores(p.id, variant.name, variant.page)
+			p.lateV = append(p.lateV, rec.L(rec.S(variant.name), rec.I(cl), rec.LS(got), rec.LS(idsSeen)))
+			if cl == 0 {
+				for _, seen := range idsSeen {
+					var k int
+					if n, _ := fmt.Sscanf(seen, "n=%d", &k); n == 1 {
+						if k >= nLive {
+							wr.Stat("late_liststores_ids_ge_live", 1)
+						} else {
+							wr.Stat("late_liststores_ids_lt_live", 1)
+						}
+						break
+					}
+				}
+			}
 		}
 	}
 
@@ -920,7 +1024,10 @@ func runScenario(wr *rec.Writer, scenSeed uint64, backend string) {
 		// store's model before they authorize); kind 2: ListStores and CreateStore
 		wr.Case(d, append(append([]rec.V{rec.I(1)}, head...), rec.L(plainV...))...)
 		wr.Case(d, append(append([]rec.V{rec.I(3)}, head...), rec.L(modelFirstV...))...)
-		wr.Case(d, append(append([]rec.V{rec.I(2)}, head...), rec.L(p.lists...), rec.I(p.create))...)
+		wr.Case(d, append(append([]rec.V{rec.I(2)}, head...), rec.L(p.lists...), rec.I(p.create), rec.S(backend))...)
+		// kind 4: ListStores after stores were deleted and created
+		head4 := []rec.V{rec.I(claimsState), rec.S(p.id.ClientID), rec.L(liveV...), rec.L(append(append([]rec.V{}, p.grantsV...), p.lateG...)...), p.laV}
+		wr.Case(d, append(append([]rec.V{rec.I(4)}, head4...), rec.L(p.lateV...), rec.I(-1), rec.S(backend))...)
 		wr.Stat("identities", 1)
 	}
 	wr.Stat("scenarios_"+backend, 1)
